@@ -1490,6 +1490,17 @@ namespace awkward {
   Content::getitem_next(const SliceEllipsis& ellipsis,
                         const Slice& tail,
                         const Index64& advanced) const {
+    // field items after the ellipsis belong to the first record below this
+    // node: project first, so that the depth is the depth of what is selected
+    Slice only_fields = tail.only_fields();
+    if (only_fields.length() != 0) {
+      Slice not_fields = tail.not_fields();
+      ContentPtr projected = getitem_next(only_fields.head(),
+                                          only_fields.tail(),
+                                          Index64::empty_advanced());
+      SliceItemPtr again = std::make_shared<SliceEllipsis>();
+      return projected.get()->getitem_next(again, not_fields, advanced);
+    }
     std::pair<int64_t, int64_t> minmax = minmax_depth();
     int64_t mindepth = minmax.first;
     int64_t maxdepth = minmax.second;
